@@ -196,7 +196,7 @@ func c05HTTP(run *vf.Run, dir string, policies []c05Policy, methods []c05Method,
 					cl := client
 					if m.ClientStream && want {
 						// a refused bulk upload is known never to answer through the gateway shim: do not wait long for it
-						cl = &http.Client{Timeout: 2 * time.Second}
+						cl = &http.Client{Timeout: 1200 * time.Millisecond}
 					}
 					resp, err := cl.Do(req)
 					calls++
